@@ -21,7 +21,7 @@ FUNCS = ["torchdata/stateful_dataloader/stateful_dataloader.py:_StatefulMultiPro
          "torchdata/stateful_dataloader/worker.py:_worker_loop"]
 RULE = ("(sched) real worker processes under a scheduled arrival order, torch's SIGCHLD handler switched off so that death is detected by the poll of the result queue "
         "(_try_get_data): one worker is SIGKILLed at an enumerated crash point - idle after k batches, inside __getitem__/__next__ of a chosen item, inside collate_fn, "
-        "while its result is being pickled for the queue; a second worker may die too; map-style and iterable datasets, W 1-3, batch sizes, prefetch 1-3; the realised "
+        "while its result is being pickled for the queue; the death is a SIGKILL or a plain exit with status 0 or 3; a second worker may die too; map-style and iterable datasets, W 1-3, batch sizes, prefetch 1-3; the realised "
         "trace (arrivals, the poll that found the dead worker) is replayed on SdlFault.v and the outcome sequences compared; a state_dict taken before the death is "
         "pickled, loaded into a fresh loader and must yield the uninterrupted remainder; (free) default multiprocessing context and SIGCHLD handler: the same crash "
         "points plus death inside worker_init_fn (start-up handshake) and inside iter(dataset) of a persistent worker at the start of the second epoch (resume "
@@ -36,7 +36,15 @@ SHARD = 100
 
 
 # ------------------------------------------------------------------------------------------------- datasets with kill switches
+DIE_HOW = ["kill"]          # how a worker dies in this case: SIGKILL, or a plain exit with status 0 / 3 (set per case; inherited by fork)
+
+
 def _die():
+    how = DIE_HOW[0]
+    if how == "exit0":
+        os._exit(0)
+    if how == "exit3":
+        os._exit(3)
     os.kill(os.getpid(), signal.SIGKILL)
 
 
@@ -162,7 +170,8 @@ def gen_cases(rng, tier, drift):
         mode = rng.choice(modes)
         if cfg["bs"] is None and mode in ("collate", "serialise"):
             mode = "fetch"
-        kill = dict(mode=mode, worker=rng.randrange(W), item=rng.choice(items), after=rng.randint(0, max(0, len(ref) - 1)))
+        kill = dict(mode=mode, worker=rng.randrange(W), item=rng.choice(items), after=rng.randint(0, max(0, len(ref) - 1)),
+                    how=rng.choice(["kill", "kill", "exit0", "exit3"]))
         if mode == "resume":
             cfg.update(kind="iter", persistent=True, bs=rng.choice([1, 2]))
             cfg["sizes"] = [rng.randint(2, 5) for _ in range(W)]
@@ -215,6 +224,7 @@ def resume_oracle(cfg, kill, sd, k, ref, fails):
 
 def run_impl(c):
     cfg, kill = c["cfg"], c["kill"]
+    DIE_HOW[0] = kill.get("how", "kill")
     ref = [b if isinstance(b, list) else [b] for b in si.batches_ref(cfg)]
     fails, outs = [], []
     sched = si.Schedule(c["choices"]) if c["kind"] == "sched" else None
